@@ -527,6 +527,12 @@ func Gen(t *rapid.T, o Opts) Module {
 				}
 			}
 		}
+		if g.intn("funclocal", 0, 3) == 0 {
+			p.FuncLocal = append(p.FuncLocal, "OnlyLocal")
+			if len(p.Ifaces) > 0 && g.intn("shadow", 0, 1) == 0 {
+				p.FuncLocal = append(p.FuncLocal, p.Ifaces[0].Name)
+			}
+		}
 		m.Pkgs = append(m.Pkgs, p)
 	}
 	if len(m.Pkgs) == 0 {
